@@ -706,6 +706,13 @@ def error_set(prog, callee):
                     e = v.args[3][0]
                     if e.op == "agg" and e.args[0] == "rtcm_error::RtcmError":
                         out.add(e.args[1])
+                    elif e.op == "field" and e.args[1] == 0 and e.args[0].op == "downcast" and e.args[0].args[1] == 1:
+                        # Err(payload of another result): a folded `?` on an inlined helper's result (phi of in-place Ok / Err)
+                        es = _errs_of_result_term(prog, fa, e.args[0].args[0], 0)
+                        if es is None:
+                            okall = False
+                        else:
+                            out |= es
                     else:
                         okall = False
                 elif v.op == "agg" and v.args[2] == "Ok":
